@@ -421,7 +421,8 @@ impl Terminal for UnixTerminal {
         self.write_queue.flush()?;
 
         let mut first_loop = true;
-        let timeout_instant = timeout.map(|dur| Instant::now() + dur);
+        // deadline that the clock cannot represent is no deadline
+        let timeout_instant = timeout.and_then(|dur| Instant::now().checked_add(dur));
         while !self.write_queue.is_empty() || self.events_queue.is_empty() {
             // process timeout
             let delay = match timeout_instant {
